@@ -192,6 +192,12 @@ theorem stage_guard {req : Req} {st : St} {p : Part} {nm : List Char}
   simp only [Bool.or_eq_true, Bool.not_eq_true', bne_iff_ne, ne_eq, not_or, Bool.not_eq_false, Decidable.not_not] at h
   exact ⟨nextOk_le h.1, h.2⟩
 
+theorem fieldDecodable_le {req : Req} {start : Nat} {p : Part} {sd last : Bool} :
+    fieldDecodable req start p sd last = true → start + p.size ≤ req.cfg.budget := by
+  unfold fieldDecodable
+  simp only [Bool.and_eq_true, decide_eq_true_eq]
+  exact fun h => h.1
+
 theorem mapStage_acct (g : Guards) (req : Req) (st : St) (ps : List Part) (h : Acct req st) :
     Acct req (mapStage g req st ps).1 := by
   cases ps with
@@ -205,6 +211,7 @@ theorem mapStage_acct (g : Guards) (req : Req) (st : St) (ps : List Part) (h : A
       have hle : st.mem + st.disk ≤ st.off + p1.hdr := by have := h.stored; omega
       split
       · rename_i hs
+        replace hs := fieldDecodable_le hs
         split
         · exact ⟨h.tidy, hle, hb, h.memOnly, h.diskOnly⟩
         · apply fileLoop_acct
@@ -224,6 +231,7 @@ theorem opsStage_acct (g : Guards) (req : Req) (st : St) (ps : List Part) (h : A
       have hle : st.mem + st.disk ≤ st.off + p0.hdr := by have := h.stored; omega
       split
       · rename_i hs
+        replace hs := fieldDecodable_le hs
         split
         · exact ⟨h.tidy, hle, hb, h.memOnly, h.diskOnly⟩
         · apply mapStage_acct
@@ -689,21 +697,21 @@ def threeParts : List Part :=
 def badIndexReq : Req :=
   { cfg := ⟨0, 0⟩, contentLength := 400, dlen := 14, tail := 18, boundaryOk := true, fs := noFaults,
     ops := .ok (.obj [("a".toList, .arr [.null])]),
-    map := .ok [("0".toList, ["variables.a.5".toList])],
+    map := .ok [("0".toList, ["variables.a.5".toList])], opsSelfDelim := true, mapSelfDelim := true,
     parts := threeParts, term := .eof }
 
 /-- one file mapped to two variables, MaxMemory 1 (spill) -/
 def twoPathsSpillReq : Req :=
   { cfg := ⟨0, 1⟩, contentLength := 500, dlen := 14, tail := 18, boundaryOk := true, fs := noFaults,
     ops := .ok (.obj [("file".toList, .null), ("b".toList, .null)]),
-    map := .ok [("0".toList, ["variables.file".toList, "variables.b".toList])],
+    map := .ok [("0".toList, ["variables.file".toList, "variables.b".toList])], opsSelfDelim := true, mapSelfDelim := true,
     parts := threeParts, term := .eof }
 
 /-- MaxUploadSize 300 against a 363-byte body, with declared length `cl` -/
 def limitedReq (cl : Int) : Req :=
   { cfg := ⟨300, 0⟩, contentLength := cl, dlen := 14, tail := 18, boundaryOk := true, fs := noFaults,
     ops := .ok (.obj [("file".toList, .null)]),
-    map := .ok [("0".toList, ["variables.file".toList])],
+    map := .ok [("0".toList, ["variables.file".toList])], opsSelfDelim := true, mapSelfDelim := true,
     parts := threeParts, term := .eof }
 
 end Fixture
